@@ -197,6 +197,31 @@ def native_search():
             return f"a read that was waiting when a message arrived: {type(e).__name__}"
         if got != "1;2;1;0;0;20.5;C":
             return f"a read that was waiting when a message arrived returned {got!r}"
+        # one undecodable payload is one error: reported to the read it answers, and the read after it - on a queue that is
+        # empty again - waits for the next message instead of failing a second time (seed C18h: the error was remembered)
+        rd = asyncio.create_task(t.read())
+        await asyncio.sleep(0.01)
+        feed.put_nowait(("msg", Msg("in/p/1/2/1/0/0", b"\xff\xfe")))
+        try:
+            got = await asyncio.wait_for(rd, 10)
+            return f"a read that was waiting when an undecodable payload arrived returned {got!r}"
+        except TransportError:
+            pass
+        except BaseException as e:  # noqa: BLE001
+            return f"a read that was waiting when an undecodable payload arrived: {type(e).__name__}"
+        for k in range(2):
+            rd = asyncio.create_task(t.read())
+            await asyncio.sleep(0.05)
+            if rd.done():
+                what = f"raised {type(rd.exception()).__name__}" if rd.exception() else f"returned {rd.result()!r}"
+                return f"read #{k + 1} after a reported undecodable payload, nothing new from the broker: it {what} instead of waiting"
+            feed.put_nowait(("msg", Msg("in/p/1/2/1/0/0", f"2{k}.5".encode())))
+            try:
+                got = await asyncio.wait_for(rd, 10)
+            except BaseException as e:  # noqa: BLE001
+                return f"read #{k + 1} after a reported undecodable payload: {type(e).__name__} for a good message"
+            if got != f"1;2;1;0;0;2{k}.5":
+                return f"read #{k + 1} after a reported undecodable payload returned {got!r}"
         rd = asyncio.create_task(t.read())
         await asyncio.sleep(0.01)
         feed.put_nowait(("err", MqttError("Disconnected during message iteration")))
@@ -220,7 +245,7 @@ def native_search():
         mq.AsyncioClient = orig
     n += 1
     if r:
-        return {"scenario": "connect; read waiting; message; read waiting; broker error; disconnect", "observed": r}, n
+        return {"scenario": "connect; read waiting; message; read waiting; undecodable payload; two reads that must wait; broker error; disconnect", "observed": r}, n
     return None, n
 
 
@@ -231,7 +256,7 @@ def replay(world, ob):
 
 def bounded(world, tier, seed, rep):
     f, n = native_search()
-    return {"label": "bounded", "scope": "6 encoded lines x 2 out-prefixes, 2 in-prefixes, and three scenarios with a fake aiomqtt client: undecodable then good payload; a burst of 600 messages before the first read; a read already waiting when a message and then a broker error arrive",
+    return {"label": "bounded", "scope": "6 encoded lines x 2 out-prefixes, 2 in-prefixes, and three scenarios with a fake aiomqtt client: undecodable then good payload; a burst of 600 messages before the first read; a read already waiting when a message, an undecodable payload (then two reads that must wait for the next message) and then a broker error arrive",
             "evaluations": n, "native_failure": f}
 
 
